@@ -17,3 +17,8 @@ Definition check_oracle_restores (m : nat) (g : bool) (K Tn : nat) (mask ref : l
 Definition check_optimal_ge_greedy (K : nat) (M : list (list float)) : bool * float :=
   let sc := perm_score K (mget FO M) PrimFloat.add 0%float in
   okR (negb (PrimFloat.ltb (sc (assign FO false K M)) (sc (assign FO true K M)))).
+
+(* frequency and time joined: one assignment from the flattened masks; Tn = F*T *)
+Definition check_oracle_global (m : nat) (g : bool) (K Tn : nat) (mask ref : list (list (list float)))
+    (impl : list nat) : bool * float :=
+  okR (eq_natlist (assign FO g K (score_bins FO tinyF (metric_of m) K Tn (flatten_bins K mask) (flatten_bins K ref))) impl).
